@@ -9,7 +9,7 @@
    predecessor is a Grow; readers never deliver more than MinRead-sized offers, writers never report a negative
    count; ReWrite only where the contract fixes the addressing). *)
 From Coq Require Import List Bool ZArith Arith.
-Require Import C11_Check TexRef C11_Sim C11_Step C11_Thm.
+Require Import C11_Check TexRef C11_Sim C11_Step C11_Thm C11_Utf8Thm.
 Import ListNotations.
 
 (* whatever the driver accepts satisfies the monitor (proved through the refinement, not by construction) *)
@@ -99,6 +99,16 @@ Proof. exact encode_rune_len. Qed.
 Theorem c11_decode_rune_size : forall l, l <> [] -> 1 <= snd (decode_rune l) <= length l.
 Proof. exact decode_rune_size. Qed.
 
+(* the UTF-8 model round-trips on every Unicode scalar value (whatever follows), anything else is written as
+   U+FFFD; hence WriteRune r; ReadRune gives r back *)
+Theorem c11_decode_encode : forall r t, valid_scalar r -> decode_rune (encode_rune r ++ t) = (r, length (encode_rune r)).
+Proof. exact decode_encode. Qed.
+Theorem c11_encode_invalid : forall r, (-2147483648 <= r <= 2147483647)%Z -> ~ valid_scalar r -> encode_rune r = [239; 191; 189]%Z.
+Proof. exact encode_invalid. Qed.
+Theorem c11_write_read_rune : forall s r, un s = [] -> valid_scalar r ->
+  snd (sstep (fst (sstep s (WriteRune r))) ReadRune) = (st_ok, [r; zn (length (encode_rune r))]).
+Proof. exact write_read_rune. Qed.
+
 (* non-vacuity: a history through all twenty operations, the grow paths, valid Unread* after every kind of read *)
 Theorem c11_demo : ok_seq false (init_spec IZero) demo_history = true /\
                    run (init_buf IZero) demo_history = srun (init_spec IZero) demo_history.
@@ -145,6 +155,9 @@ Print Assumptions c11_new_sized_empty.
 Print Assumptions c11_init_related.
 Print Assumptions c11_encode_rune_len.
 Print Assumptions c11_decode_rune_size.
+Print Assumptions c11_decode_encode.
+Print Assumptions c11_encode_invalid.
+Print Assumptions c11_write_read_rune.
 Print Assumptions c11_demo.
 Print Assumptions c11_grow_paths.
 Print Assumptions c11_unread_after_grow_differs.
